@@ -377,6 +377,25 @@ def regex_crate_pass(run, r, log):
                                                       regex_crate_matches=o, lean_semantics_of_captured_hir=mv,
                                                       what='the regex crate and the Lean semantics of the HIR logos compiled disagree on this string: either logos compiles a different pattern than written, or the dump/lowering/semantics is wrong',
                                                       correspondence='T-C'), no_input=True, key='tc|%s|%d|%s' % (corpus[i].origin, li, P.hexs(w)))
+    # every pattern written in an accepted corpus definition has to be a leaf of the lexer (the reference lexer above works on the
+    # leaves the derive built): a missing or extra leaf is reported, and the reference lexer over the patterns as written looks
+    # for an input on which it shows
+    for i in r['accepted']:
+        d = corpus[i]
+        nl = len(d.ordered_leaves())
+        if len(caps[i].leaves) != nl:
+            run.violation('leaf-table', dict(definition=r['srcs'][i], origin=d.origin, patterns_written=nl, leaves_of_the_derive=[list(l) for l in caps[i].leaves],
+                                             what='the accepted lexer does not have one leaf per pattern written in the definition'),
+                          no_input=True, key='leaftable|' + d.origin)
+            if not d.subpatterns:
+                for li, lf in enumerate(d.ordered_leaves()):
+                    for _ in range(3):
+                        try:
+                            smp = lf.ast.sample(R) if lf.ast is not None else (lf.pat if isinstance(lf.pat, str) else '')
+                        except Exception:
+                            smp = 'a'
+                        if smp:
+                            disagree.append((i, li, smp.encode('utf-8')))
     found = written_reference_search(run, r, disagree, binp, log) if disagree else 0
     return dict(comparisons=n, matching_strings=matched, disagreements=bad, failing_inputs_found=found)
 
